@@ -472,21 +472,21 @@ class BaseParser:
                     field.attr_dependencies if as_attname else field.dependencies
                 )
 
-        if not options.ignore_required:
-            # if required field is ignored. we do not need to check for required fields
-            for key, field in self.fields.items():
-                name = field.attname if as_attname else field.name
-                if name in result:
-                    continue
-                if excluded_keys and name in excluded_keys:
-                    continue
-                unprovided_fields.add(name)
-                if field.is_required(options=options):
-                    context.handle_error(exc.AbsenceError(item=name))
-                    continue
-                default = field.get_default(options, defer=False)
-                if not unprovided(default):
-                    result[name] = default
+        # is_required() already answers False under ignore_required: the defaults of the
+        # fields that were not given are applied either way (as the field-first strategy does)
+        for key, field in self.fields.items():
+            name = field.attname if as_attname else field.name
+            if name in result:
+                continue
+            if excluded_keys and name in excluded_keys:
+                continue
+            unprovided_fields.add(name)
+            if field.is_required(options=options):
+                context.handle_error(exc.AbsenceError(item=name))
+                continue
+            default = field.get_default(options, defer=False)
+            if not unprovided(default):
+                result[name] = default
 
         if dependencies:
             dependant = set(result)
